@@ -525,7 +525,8 @@ class Qcow2Suite(Suite):
             n = 300 if tier == "thorough" else 40
         else:
             n = 3000 if tier == "thorough" else 220
-        return [gen_case(rng, tier, self.bigbuf) for _ in range(n)]
+        from harness.readers import with_twins
+        return with_twins([gen_case(rng, tier, self.bigbuf) for _ in range(n)], rng)
 
     # -- implementation side (worker process)
     def impl(self, case):
